@@ -407,3 +407,215 @@ func SliceReuses(f *Func) []SliceReuse {
 	})
 	return out
 }
+
+// StaleVar is a (non-boolean) variable declared outside a loop that is only
+// conditionally assigned inside the loop body and read later in the same body:
+// when the condition does not hold, the value of a previous iteration is used.
+type StaleVar struct {
+	Var   types.Object
+	Loop  ast.Stmt
+	Set   ast.Node
+	Read  ast.Node
+}
+
+// StaleLoopVars finds the pattern in f. Accumulators (assignments that mention
+// the variable itself, op-assignments, ++/--) are not reported, nor are
+// variables that receive an unconditional assignment at the top level of the
+// loop body before the read.
+func StaleLoopVars(f *Func) []StaleVar {
+	info := f.Pkg.TypesInfo
+	var out []StaleVar
+	var loops []ast.Stmt
+	ast.Inspect(f.Decl.Body, func(n ast.Node) bool {
+		switch n.(type) {
+		case *ast.ForStmt, *ast.RangeStmt:
+			loops = append(loops, n.(ast.Stmt))
+		}
+		return true
+	})
+	for _, loop := range loops {
+		body := loopBody(loop)
+		type asg struct {
+			n           ast.Node
+			topLevel    bool
+			accumulator bool
+		}
+		assigns := map[types.Object][]asg{}
+		for _, st := range body.List {
+			top := ast.Node(st)
+			// the init statement of a top-level if/switch always executes
+			var topInit ast.Node
+			switch x := st.(type) {
+			case *ast.IfStmt:
+				topInit = x.Init
+			case *ast.SwitchStmt:
+				topInit = x.Init
+			case *ast.TypeSwitchStmt:
+				topInit = x.Init
+			}
+			ast.Inspect(st, func(n ast.Node) bool {
+				if _, isLit := n.(*ast.FuncLit); isLit {
+					return false
+				}
+				if topInit != nil && n == topInit {
+					top = n
+				}
+				as, ok := n.(*ast.AssignStmt)
+				if !ok {
+					if inc, isInc := n.(*ast.IncDecStmt); isInc {
+						if o := ObjOf(info, inc.X); o != nil {
+							assigns[o] = append(assigns[o], asg{n, n == top, true})
+						}
+					}
+					return true
+				}
+				for i, l := range as.Lhs {
+					id, ok := Unparen(l).(*ast.Ident)
+					if !ok {
+						continue
+					}
+					o := ObjOf(info, id)
+					v, isVar := o.(*types.Var)
+					if !isVar || v.IsField() || within(declNode(o, f), body) {
+						continue
+					}
+					if b, isBasic := v.Type().Underlying().(*types.Basic); isBasic && b.Kind() == types.Bool {
+						continue // booleans are StaleFlags' business
+					}
+					acc := as.Tok.String() != "=" && as.Tok.String() != ":="
+					if i < len(as.Rhs) && mentions(info, as.Rhs[i], o) {
+						acc = true
+					}
+					if len(as.Rhs) == 1 && len(as.Lhs) > 1 && mentions(info, as.Rhs[0], o) {
+						acc = true
+					}
+					if guardedBySelf(info, st, as, o) {
+						acc = true // lazy initialisation: `if x == nil { x = … }` keeps state on purpose
+					}
+					assigns[o] = append(assigns[o], asg{as, n == top || totalSwitchAssign(info, st, o), acc})
+				}
+				return true
+			})
+		}
+		for o, as := range assigns {
+			// parameters and named results are not loop-local state we reason about
+			conditional := false
+			var firstCond ast.Node
+			accumulates := false
+			for _, a := range as {
+				if a.accumulator {
+					accumulates = true
+				}
+				if !a.topLevel && !a.accumulator {
+					conditional = true
+					if firstCond == nil {
+						firstCond = a.n
+					}
+				}
+			}
+			if !conditional || accumulates {
+				continue
+			}
+			// reads in the loop body, outside the conditional assignment's own statement, after it
+			var read ast.Node
+			for _, st := range body.List {
+				if st.End() <= firstCond.Pos() && !(st.Pos() <= firstCond.Pos() && firstCond.End() <= st.End()) {
+					continue
+				}
+				ast.Inspect(st, func(n ast.Node) bool {
+					if _, isLit := n.(*ast.FuncLit); isLit {
+						return false
+					}
+					id, ok := n.(*ast.Ident)
+					if !ok || info.Uses[id] != o || id.Pos() < firstCond.End() {
+						return true
+					}
+					// not an assignment target
+					isLHS := false
+					for _, a := range as {
+						if asn, ok := a.n.(*ast.AssignStmt); ok {
+							for _, l := range asn.Lhs {
+								if l == ast.Expr(id) {
+									isLHS = true
+								}
+							}
+						}
+					}
+					if !isLHS && read == nil {
+						read = id
+					}
+					return true
+				})
+			}
+			if read == nil {
+				continue
+			}
+			// an unconditional top-level assignment before the read resets the variable each iteration
+			reset := false
+			for _, a := range as {
+				if a.topLevel && !a.accumulator && a.n.Pos() < read.Pos() {
+					reset = true
+				}
+			}
+			if reset {
+				continue
+			}
+			// the loop must be able to iterate again after the read (no unconditional exit)
+			out = append(out, StaleVar{Var: o, Loop: loop, Set: firstCond, Read: read})
+		}
+	}
+	return out
+}
+
+// guardedBySelf reports whether assignment as (inside statement st) sits in the
+// body of an if whose condition mentions the assigned variable itself.
+func guardedBySelf(info *types.Info, st ast.Stmt, as *ast.AssignStmt, o types.Object) bool {
+	found := false
+	ast.Inspect(st, func(n ast.Node) bool {
+		is, ok := n.(*ast.IfStmt)
+		if !ok {
+			return true
+		}
+		inBody := within(as, is.Body) || (is.Else != nil && within(as, is.Else))
+		if inBody && mentions(info, is.Cond, o) {
+			found = true
+		}
+		return true
+	})
+	return found
+}
+
+// totalSwitchAssign reports whether st is a switch with a default clause in
+// which every clause assigns o at its top level (so o is assigned on every path).
+func totalSwitchAssign(info *types.Info, st ast.Stmt, o types.Object) bool {
+	var clauses []ast.Stmt
+	switch x := st.(type) {
+	case *ast.SwitchStmt:
+		clauses = x.Body.List
+	case *ast.TypeSwitchStmt:
+		clauses = x.Body.List
+	default:
+		return false
+	}
+	hasDefault := false
+	for _, cl := range clauses {
+		cc := cl.(*ast.CaseClause)
+		if cc.List == nil {
+			hasDefault = true
+		}
+		assigned := false
+		for _, s := range cc.Body {
+			if as, ok := s.(*ast.AssignStmt); ok {
+				for _, l := range as.Lhs {
+					if ObjOf(info, l) == o {
+						assigned = true
+					}
+				}
+			}
+		}
+		if !assigned {
+			return false
+		}
+	}
+	return hasDefault
+}
